@@ -188,6 +188,58 @@ def gen_cases(rng, variants, n, prefix):
     return cases
 
 
+WINDOW_TEMPLATES = [
+    [["E"], ["E"], ["D"]],
+    [["E"], ["E"], ["D", "D"]],
+    [["E"], ["D"], ["D"]],
+    [["E"], ["E"], ["E"]],
+    [["E", "D"], ["E"], ["D"]],
+    [["E", "E"], ["D"], ["D"]],
+]
+
+
+def gen_window_cases(ctx, model, rng, variants, prefix, per_variant):
+    """model-guided window schedules (conc_check.window_schedules) for the step-modelled variants given; the profile of
+    each operation is measured on the extracted model itself, so it follows the model when the model changes"""
+    cases = []
+    wdir = os.path.join(ctx.work, "probe")
+    os.makedirs(wdir, exist_ok=True)
+    for var in variants:
+        mk = model_kind(var)
+        if mk is None or model is None:
+            continue
+        mc = VARIANTS[var][2]
+        cfg = [mc[0], mc[1], mc[2], LOOP_FUEL, var]
+        pe = conc_check.solo_profile(model[mk], wdir, cfg, [], [1, 7], tag="pe_%d" % var)
+        pd = conc_check.solo_profile(model[mk], wdir, cfg, [[1, 7]], [2], tag="pd_%d" % var)
+        if not pe[1] and not pd[1]:
+            continue
+        allc = []
+        for ti, tpl in enumerate(WINDOW_TEMPLATES):
+            v = 10
+            threads = []
+            prof = []
+            for th in tpl:
+                ops = []
+                for o in th:
+                    if o == "E":
+                        ops.append([1, v]); v += 1
+                    else:
+                        ops.append([2])
+                threads.append(ops)
+                prof.append((sum((pe if o == "E" else pd)[0] for o in th), (pe if th[0] == "E" else pd)[1]))
+            for name, sched in conc_check.window_schedules(len(threads), prof, max_r=14):
+                allc.append({"id": "%sv%d_t%d_%s" % (prefix, var, ti, name), "cfg": cfg, "threads": threads, "sched": sched, "kind": "window"})
+        # deterministic subsample from the seed when the budget is smaller than the enumeration
+        if len(allc) > per_variant:
+            idx = list(range(len(allc)))
+            for i in range(len(idx) - 1, 0, -1):
+                j = rng.below(i + 1); idx[i], idx[j] = idx[j], idx[i]
+            allc = [allc[i] for i in sorted(idx[:per_variant])]
+        cases += allc
+    return cases
+
+
 # ---------------------------------------------------------------------------------------------------------
 def history_of(case, ilog):
     """history (lincheck text lines) of an implementation log + the sequential drain done by main"""
@@ -380,6 +432,12 @@ def run(ctx):
         vs = group_variants(g)
         gcases[g] = [c for c in corpus if VARIANTS.get(c["cfg"][4], (None, -1))[1] == g] + \
                     gen_cases(ctx.rng.fork(), vs, per_group[g], "g%d_" % g)
+        # window schedules: every step-modelled variant in the thorough tier, a seed-chosen half of them in the quick tier
+        wv = [v for v in sorted(set(vs)) if model_kind(v) is not None]
+        if not ctx.thorough():
+            r0 = ctx.rng.fork()
+            wv = [v for i, v in enumerate(wv) if (i + ctx.seed) % 2 == 0] or wv[:1]
+        gcases[g] += gen_window_cases(ctx, model, ctx.rng.fork(), wv, "w%d_" % g, 100000 if ctx.thorough() else 450)
     # the groups are independent processes: run them side by side, then decide the histories side by side
     with ThreadPoolExecutor(max_workers=len(GROUPS)) as ex:
         runs = dict(zip(GROUPS, ex.map(lambda g: run_group(ctx, g, exes, model, gcases[g], "cases"), GROUPS)))
